@@ -4,7 +4,13 @@
 //    The closure text itself still comes from /repo (the unit only re-brackets the call with two token substitutions).
 //  * EMPTY_ARR_CID (runtime/src/runtime/empty.rs): the CID every actor's state root has before its constructor ran. An opaque token;
 //    nothing is assumed about it except that it is a fixed value.
-//  * EthAddress and the two conversions U256 -> EthAddress -> Address used by SELFDESTRUCT: opaque deterministic functions.
+//  * EthAddress and the two conversions U256 -> EthAddress -> Address used by SELFDESTRUCT: opaque deterministic functions; EthAddress::as_id opaque.
+//    (prelude/eam_assumed.rs defines its own EthAddress and a weaker `<[T]>::to_vec` spec: do not include both files in one unit.)
+//  * small std / fvm glue, each stated at its documented meaning: RawBytes -> Vec<u8>, WithCodec + DAG_CBOR, U256::default() == 0,
+//    <[T]>::to_vec (element-wise clone), a caller set given as `[&Address; N]`, SendFlags::default() == empty, TokenAmount::from(&U256)
+//    (same number), IpldBlock::serialize_dag_cbor (opaque token, like serialize_cbor), ActorError::checked / take_data (exit code kept;
+//    the same two exist in verifreg_claims_assumed.rs / multisig_assumed.rs), BytecodeHash::EMPTY (a fixed opaque value),
+//    vx_method_hash!("InvokeEVM") = 3844450837 (the FRC-42 hash of that one name, i.e. Method::InvokeContract).
 macro_rules! vx_is_some_and {
     ($o:expr, (|$t:ident| $b:expr)) => { match $o { Some($t) => $b, None => false } };
 }
